@@ -18,6 +18,46 @@ import nfc.dep
 
 from . import simdev, vsched
 
+_BaseSched = vsched.Sched
+
+
+class BudgetSched(_BaseSched):
+    """vsched.Sched whose step budget ends the scenario instead of the
+    process: when a worker thread runs past the budget (a busy loop that
+    never waits for virtual time) the worker is parked and the controller is
+    woken with StepBudget raised from its pending wait.  (In vsched.Sched the
+    worker dies holding the baton and every other real thread stays blocked
+    on its semaphore.)"""
+
+    exhausted = False
+
+    def switch(self, me):
+        c = self.controller
+        if self.exhausted and not self.abort:
+            if me is c:
+                raise vsched.StepBudget()
+        elif (not self.abort and me is not c
+              and self.steps >= self.step_budget):
+            self.exhausted = True
+            if c.state != vsched.RUNNABLE:
+                c.state = vsched.RUNNABLE
+                c.timed_out = True
+                self._unwait(c)
+            if me.state == vsched.RUNNABLE:
+                me.state = vsched.BLOCKED
+                me.wait_on = "budget"
+                me.deadline = None
+            c.baton.release()
+            if me.state != vsched.DONE:
+                me.baton.acquire()
+            raise vsched.Abort()
+        if self.exhausted and me is not c and not self.abort:
+            # other workers that get the baton after exhaustion: park too
+            me.baton.acquire()
+            raise vsched.Abort()
+        return _BaseSched.switch(self, me)
+
+
 LR = (64, 128, 192, 254)
 BRTY = ("106A", "212F", "424F")
 KINDS = {0: "INF", 1: "I++", 4: "ACK", 5: "NAK", 8: "ATN", 9: "TOX"}
@@ -96,6 +136,7 @@ class Result(object):
         self.act_frames = []    # activation frames
         self.timed_out = False  # conversation did not end inside the limit
         self.budget = False     # scheduler step budget exhausted (busy loop)
+        self.steps = 0
         self.deadlock = None
         self.t_final_call = False   # t_err / t_end belong to the call after
         #                             the last request was handed out
@@ -110,14 +151,14 @@ def timeouts(cfg):
     return {"rwt": rwt, "i": t_i, "t": 4 * t_i + 1.0, "listen": 4 * rwt + 3.0}
 
 
-def converse(cfg, reqs, ress, script, step_budget=120000):
+def converse(cfg, reqs, ress, script, step_budget=20000):
     """run one conversation.  cfg: brs lri lrt rwt did nad gbi gbt start seed
     release; reqs/ress: lists of bytes; script: {slot: "lose"|"corrupt"} over
     the frames that follow activation (slot 0 is the first DEP_REQ)."""
     vsched.patch_nfc()
     out = Result()
     tmo = timeouts(cfg)
-    s = vsched.Sched((), seed=cfg.get("seed", 0), step_budget=step_budget)
+    s = BudgetSched((), seed=cfg.get("seed", 0), step_budget=step_budget)
     vsched.activate(s)
     try:
         air = simdev.Air()
@@ -224,9 +265,11 @@ def converse(cfg, reqs, ress, script, step_budget=120000):
                     if not cv.wait(end - s.now):
                         break
         except vsched.StepBudget:
-            # more scheduling points than any conversation needs: somebody
-            # loops without ever waiting for virtual time to pass
-            out.budget = True
+            pass
+        # more scheduling points than any conversation needs: somebody loops
+        # without ever waiting for virtual time to pass
+        out.budget = s.exhausted
+        out.steps = s.steps
         out.timed_out = not (out.i_done and out.t_done)
         out.deadlock = s.deadlock
         out.vtime = s.now
@@ -312,3 +355,18 @@ def parse_activation(brty, data):
     if d[:2] == b"\xD5\x05":
         return {"pdu": "PSL_RES"}
     return None
+
+
+class Pair(object):
+    """p2p.Pair on a BudgetSched (same interface)"""
+
+    def __new__(cls, choices=(), seed=0, opts_i=None, opts_t=None,
+                step_budget=400000):
+        from . import p2p
+        orig = vsched.Sched
+        vsched.Sched = BudgetSched      # p2p.Pair looks the class up here
+        try:
+            return p2p.Pair(choices, seed=seed, opts_i=opts_i, opts_t=opts_t,
+                            step_budget=step_budget)
+        finally:
+            vsched.Sched = orig
